@@ -14,7 +14,7 @@ from . import common, gast, modes, refpeg
 
 
 class Spec:
-    __slots__ = ("rules", "starts", "inputs", "kmode", "family", "_text", "_model")
+    __slots__ = ("rules", "starts", "inputs", "kmode", "family", "_text", "_model", "raw")
 
     def __init__(self, rules, starts, inputs, kmode="zero", family=""):
         self.rules = tuple(rules)
@@ -24,6 +24,7 @@ class Spec:
         self.family = family
         self._text = None
         self._model = None
+        self.raw = False            # True when the grammar text was given directly (no gast rules)
 
     @property
     def text(self) -> str:
@@ -184,7 +185,7 @@ def _worker(rng):
                     stats["impl_fail"] += 1
         before = len(out)
         check.judge(spec, tabs[i], model_obs, out)
-        if len(out) > before and len(spec.starts) > 1 and check.isolate:
+        if len(out) > before and len(spec.starts) > 1 and check.isolate and not spec.raw:
             out[before:] = _isolate(check, spec, out[before:])
         stats["failures"] += len(out) - before
         check.collect(spec, tabs[i], model_obs, extra)
